@@ -345,3 +345,89 @@ Example C16_indentation_built_sample :
   | None => False
   end.
 Proof. vm_compute. repeat split. Qed.
+
+Require Import LineErase Machine MachineEq MachineInst MachineInsert BlankInsert.
+
+(* Blank lines.  Two sources, the second obtained from the first by leaving out the flagged lines, which are blank
+   (whitespace only): if the parser reaches every flagged line in a state that handles #Empty by staying where it is --
+   every state outside descriptions and doc strings (C16_neutral_states) --, then in stop-at-first-error mode the two
+   sources give the same document up to line numbers, or the same first error up to its line number, and the same
+   matcher state.  Chain: Parser.parse = the queue-free machine (C18_queue_free_machine); the insertion theorem for the
+   machine (MachineInsert.m_parse_ins: look-aheads skip the inserted tokens, a neutral state consumes them; hand-made
+   relational induction, the two pending lists being aligned once the flagged tokens are left out); the matcher copies
+   line numbers and never looks at them (matcher_le); the builder never looks at a line number nor at the #Empty tokens
+   it stores (LineErase). *)
+Theorem C16_blank_lines_inserted : forall m b src src' fl, wf_ms m ->
+  List.length fl = List.length (py_lines src') -> flagged_blank fl (py_lines src') -> del fl (py_lines src') = py_lines src ->
+  safe_run (pipeline_params Table.table) neutral (scan src') fl (reset_matcher Dialects.dialects m) (reset_builder b) ->
+  psimn (parse_source true m b src') (parse_source true m b src).
+Proof. exact blank_lines_neutral. Qed.
+Print Assumptions C16_blank_lines_inserted.
+
+Theorem C16_neutral_states :
+  forallb (fun x => neutralb (s_id x) || existsb (Nat.eqb (s_id x)) (description_states Table.table)
+                    || existsb (Nat.eqb (s_id x)) (docstring_states Table.table)) Table.table = true.
+Proof. exact neutral_states. Qed.
+Print Assumptions C16_neutral_states.
+
+(* the matcher copies line numbers, it never looks at them *)
+Theorem C16_matcher_blind_line_numbers : forall k m t,
+  matcher Dialects.dialects k m (tle t) = mout_le (matcher Dialects.dialects k m t).
+Proof. exact matcher_le. Qed.
+Print Assumptions C16_matcher_blind_line_numbers.
+
+(* ... and for accepted documents the same holds in error-collecting mode *)
+Theorem C16_blank_lines_inserted_accepted : forall m b src src' fl d m1 b1 n, wf_ms m ->
+  List.length fl = List.length (py_lines src') -> flagged_blank fl (py_lines src') -> del fl (py_lines src') = py_lines src ->
+  safe_run (pipeline_params Table.table) neutral (scan src') fl (reset_matcher Dialects.dialects m) (reset_builder b) ->
+  parse_source false m b src = POk d m1 b1 n ->
+  exists d' b1' n', parse_source false m b src' = POk d' m1 b1' n' /\ le_doc d' = le_doc d.
+Proof.
+  intros m b src src' fl d m1 b1 n W L F D Sf H. apply source_collect_accepts in H.
+  pose proof (blank_lines_neutral m b src src' fl W L F D Sf) as S. rewrite H in S.
+  destruct (parse_source true m b src') as [d' m1' b1' n'| | | |] eqn:P'; cbn [psimn] in S; try contradiction.
+  destruct S as (Dd & <-). exists d', b1', n'. split; [apply source_stop_accepts; exact P' | exact Dd].
+Qed.
+Print Assumptions C16_blank_lines_inserted_accepted.
+
+(* non-vacuity: blank lines (empty, blanks, tabs) inserted before and after the tag line, the feature line, between steps,
+   inside a table, before the doc string: hypotheses and conclusion; a blank line inside the doc string is not safe *)
+Definition c16_spaced : str := s2l
+"
+@t
+   
+Feature: f
+
+  Scenario: s
+    Given g
+	
+      | a |
+    And d
+
+      ```
+      text  
+      ```
+
+".
+Definition c16_spaced_flags : list bool := [true; false; true; false; true; false; false; true; false; false; true; false; false; false; true].
+Example C16_blank_lines_sample :
+  match new_matcher Dialects.dialects (s2l "en") with
+  | Some m =>
+    Nat.eqb (List.length c16_spaced_flags) (List.length (py_lines c16_spaced)) = true
+    /\ flagged_blankb c16_spaced_flags (py_lines c16_spaced) = true
+    /\ list_beq str_eqb (del c16_spaced_flags (py_lines c16_spaced)) (py_lines c16_plain) = true
+    /\ safe_runb (scan c16_spaced) c16_spaced_flags (reset_matcher Dialects.dialects m) (reset_builder (new_builder 0)) = true
+    /\ match parse_source true m (new_builder 0) c16_spaced, parse_source true m (new_builder 0) c16_plain with
+       | POk d' _ _ _, POk d _ _ _ => le_doc d' = le_doc d /\ d' <> d
+       | _, _ => False
+       end
+    /\ safe_runb (scan (s2l "Feature: f
+  Scenario: s
+    Given d
+      ```
+
+      ```
+")) [false; false; false; false; true; false] (reset_matcher Dialects.dialects m) (reset_builder (new_builder 0)) = false
+  | None => False
+  end.
+Proof. vm_compute. repeat split. discriminate. Qed.
